@@ -411,10 +411,11 @@ LEVEL_TEXT = ("Machine-checked Lean 4 theorems (lean/CppUModel/Props/C08.lean) o
 LEVEL_NOTE = ("Trusted: Lean kernel; the hand-written model (validated against the code by the correspondence of this run, "
               "including scopes, ignoreOtherCalls, enable/disable, clear, expectedCallsLeft, ignoreOtherParameters and ambiguous "
               "sets, which the theorems do not cover); the oracle's reading of the property; the message extractor. The "
-              "theorems speak about callFull/run, i.e. the composition of the model's primitives (beginCall, withName, "
-              "checkInput/checkOutput/onObject, callCheck, endCheck) with every call finished before the next statement; the "
-              "driver composes the same primitives per MockSupport scope with deferred finishing (observationally the same "
-              "verdict, checked by correspondence, not proved). Partial: outputs_copied_from_consumed (copied bytes proved, "
+              "theorems speak about callFull/run, i.e. every call finished before the next statement; scope_call_is_callFull / "
+              "check_is_endCheck prove that the per-scope functions the correspondence driver replays (Scope.actualCall, "
+              "Scope.seg, Scope.checkLast, World.check) compute exactly callFull / endCheck in that situation; finishing a "
+              "call only at the next actualCall / checkExpectations (deferred) gives the same verdict by correspondence, "
+              "not by proof. Partial: outputs_copied_from_consumed (copied bytes proved, "
               "untouched tail only observed). Not carried by theorems: ignoreOtherParameters / ignoreOtherCalls classes "
               "(correspondence only), mixed-integer parameter equality (C09).")
 TECHNIQUE = ("Lean 4 invariant / refinement-to-multiset proofs over an executable model + differential correspondence harness "
